@@ -55,10 +55,11 @@ def expected_velocity(tok, v):
 class Piece:
     """explicit symbolic note lists per track (+ concrete signature plan on track 0)"""
 
-    def __init__(self, ntr, plan="none"):
+    def __init__(self, ntr, plan="none", meta_track=0):
         self.tracks = [[] for _ in range(ntr)]   # NoteV per track (channel = track)
         self.plan = plan
         self.cap = None
+        self.meta_track = meta_track             # the track that carries the signature events
 
     def add(self, tr, pitch, start, dur, vel):
         self.tracks[tr].append(NoteV(tr, pitch, start, start + dur, vel))
@@ -67,7 +68,7 @@ class Piece:
         seqs = []
         for ti, notes in enumerate(self.tracks):
             msgs = []
-            if ti == 0:
+            if ti == self.meta_track:
                 for (tt, n, d) in PLANS[self.plan]:
                     msgs.append(ts(n, d, time=tt))
             for n in notes:
@@ -209,6 +210,20 @@ def q_late_signature(fl, bins):
                  desc="first signature event only at the second bar line, notes of the other track on that line")
 
 
+def q_meta_on_second_track(fl, bins, plan):
+    """the signatures live on track 1 while track 0 has a note exactly on the bar line of a signature change"""
+    def fn(ctx):
+        tok = mk(fl, bins, 2)
+        p = Piece(2, plan, meta_track=1)
+        lines = [0] + bar_lines(plan, 300)
+        p.add(0, 60, lines[1], 12, ctx.int("v1", 1, 127))
+        p.add(0, 62, lines[1] + 12 * ctx.int("j", 1, 6), 12, 64)
+        p.add(1, 61, 12 * ctx.int("k", 0, 12), 12, ctx.int("v2", 1, 127))
+        return roundtrip(ctx, tok, p)
+    return Query(f"meta_on_second_track/{plan}/f{''.join(str(int(x)) for x in fl)}-b{bins}", fn, CL,
+                 desc="signature events on the second track, first-track note on the bar line of the change")
+
+
 def q_sim(fl, bins):
     def fn(ctx):
         tok = mk(fl, bins, 2)
@@ -244,6 +259,8 @@ def queries(tier, seed):
         qs.append(q_sim(FLAGS[15], 2))
         qs.append(q_late_signature(FLAGS[0], 1))
         qs.append(q_late_signature(FLAGS[15], 2))
+        qs.append(q_meta_on_second_track(FLAGS[0], 1, "44-34"))
+        qs.append(q_meta_on_second_track(FLAGS[15], 2, "34-58"))
     else:
         for fl in FLAGS:
             for bins in (1, 2, 5, 8):
